@@ -33,7 +33,15 @@ from rustlex import (LexError, brace_depths, line_of, line_start, mask, match_cl
 
 REPO = os.environ.get("VERIF_REPO", "/repo")
 # repository file of the item whose rewrite rules are being applied (for rules that look other items up in that file)
-CURRENT_FILE = [None]
+import threading as _threading
+class _Cur(_threading.local):
+    def __init__(self):
+        self.v = [None]
+    def __getitem__(self, i):
+        return self.v[i]
+    def __setitem__(self, i, x):
+        self.v[i] = x
+CURRENT_FILE = _Cur()
 
 
 class ExtractError(Exception):
